@@ -491,7 +491,8 @@ def from_list_case(draw):
 def to_list_case(draw):
     vars_ = draw(_var_list())
     n = len(vars_)
-    row = st.lists(st.integers(0, 1), min_size=n, max_size=n)
+    # mostly 0/1; sometimes the array is a SUM of selections (entries 2) - to_list names the variables at the 1-entries only
+    row = st.lists(st.integers(0, 1), min_size=n, max_size=n) if draw(st.integers(0, 5)) else st.lists(st.sampled_from([0, 1, 1, 2]), min_size=n, max_size=n)
     if draw(st.booleans()):
         bits = draw(st.lists(row, min_size=1, max_size=4))
     else:
